@@ -11,3 +11,4 @@ import BqlVerif.Properties.C04
 import BqlVerif.Properties.C05
 import BqlVerif.Properties.C17
 import BqlVerif.Properties.C18
+import BqlVerif.Properties.C12
